@@ -231,7 +231,63 @@ func (c *Ctx) c20Method(f *ssa.Function) int {
 			}
 		}
 		if !okSum && len(sums) == 0 {
-			c.violate("H2", fname(f)+"/sum", c.pos(f.Pos()), "no Hash.Sum call: the result cannot be the digest of what was written")
+			// the digest may be formatted by a method of the same type: follow it (one level)
+			viaHelper := ""
+			allInstrs(f, func(in ssa.Instruction) {
+				hc, ok := in.(*ssa.Call)
+				if !ok {
+					return
+				}
+				g := staticCallee(&hc.Call)
+				if g == nil || g == f || g.Blocks == nil || g.Signature.Recv() == nil || !strings.Contains(g.Signature.Recv().Type().String(), "hashingAlgo") {
+					return
+				}
+				after := false
+				for _, w := range writes {
+					if dominates(w, hc) {
+						after = true
+					}
+				}
+				reaches := false
+				allInstrs(f, func(j ssa.Instruction) {
+					if r, ok := j.(*ssa.Return); ok && len(r.Results) > 0 {
+						for _, l := range sources(r.Results[0], deriveOpts{}) {
+							if l == ssa.Value(hc) {
+								reaches = true
+							}
+						}
+					}
+				})
+				if !after || !reaches {
+					return
+				}
+				// inside the helper: every return is hex.EncodeToString(Hash.Sum(nil))
+				good, n := true, 0
+				allInstrs(g, func(j ssa.Instruction) {
+					r, ok := j.(*ssa.Return)
+					if !ok || len(r.Results) == 0 {
+						return
+					}
+					n++
+					hx, ok := resolveValue(r.Results[0]).(*ssa.Call)
+					if !ok || calleeFull(&hx.Call) != "encoding/hex.EncodeToString" {
+						good = false
+						return
+					}
+					sm, ok := resolveValue(hx.Call.Args[0]).(*ssa.Call)
+					if !ok || !sm.Call.IsInvoke() || sm.Call.Method.Name() != "Sum" || !isHashLoad(sm.Call.Value) || len(sm.Call.Args) != 1 || !isNilConst(sm.Call.Args[0]) {
+						good = false
+					}
+				})
+				if good && n > 0 {
+					viaHelper = fname(g)
+				}
+			})
+			if viaHelper != "" {
+				c.ok("H2", fname(f)+"/sum", c.pos(f.Pos()), "hex(Sum(nil)) taken after the write by "+viaHelper)
+			} else {
+				c.violate("H2", fname(f)+"/sum", c.pos(f.Pos()), "the result is not hex.EncodeToString(Hash.Sum(nil)) taken after the copy (no such call here, nor in a method of the hasher whose every return is exactly that): any other rendering of the digest (a number formatted without zero padding, a truncated or re-encoded sum) differs from the reference digest for some contents")
+			}
 		}
 		// the reader copied is the parameter itself
 		for _, w := range writes {
